@@ -58,7 +58,7 @@ func TestC03(t *testing.T) {
 		r.Require("gc_ticks", 100)
 		r.Require("gc_scopes_predicted_collected", 100)
 		r.Require("final_direct_reservation_left_to_gc", 10)
-		r.Require("seq_histories_completed_zero", r.Pick(1000, 20000))
+		r.Require("seq_histories_completed_zero", r.Pick(600, 12000))
 		r.Require("view_reads", 100)
 	}
 
